@@ -154,4 +154,53 @@ PROPS2 = {
         "undecided": "widths above the bound; offsets above the width (not documented).",
         "technique": T_EVAL,
     },
+    "C38": {
+        "level": "one_hot_mux: the returned expression is evaluated (mixed concrete select bits / labelled data bits) for 0..4 inputs, every select valuation, "
+        "with and without default and priority, and must be wired to the documented input; OneHotMux.create/elaborate pair select[i] with inputs[i]; Encoder / "
+        "Decoder / PriorityEncoder case tables; Gray encoder and decoder (loop recurrence) evaluated for widths 1..6 (decoder inverts encoder); priority tree: "
+        "leaf, split (halves, start indices, 0 < middle < len), merge (Case((1<<i)-1): lower[j] for j<i, upper[j-i] above) and root wiring; ring encoder: the "
+        "inner encoder's input is evaluated for widths 1..5, every input/first/last, against the rotated circular interval [first,last), outputs rotated back "
+        "modulo width; selecting network: merge index forms evaluated for group lengths 1..4 (stable merge: valid prefix of a, then b), counts, level plumbing, "
+        "root wiring; create() helpers.",
+        "undecided": "that the per-level obligations of the recursive tree and of the while-loop network compose to the documented function for every width "
+        "(induction over levels is a paper argument); binary_tree_reduce's loop (or_value is taken as OR-reduction).",
+        "technique": T_EVAL,
+    },
+    "C40": {
+        "level": "assign, over all 242 static configurations: selection table (COMMON = intersection, LHS, RHS, ALL = union, explicit names), the recursion for "
+        "a name is reached only when it is in both field sets (KeyError raises dominate), empty selection raises, recursion into lhs[name] / rhs[name] with the "
+        "nested selection (mapping -> fields[name], list -> ALL, mode otherwise), leaf emits exactly one Value.cast(lhs).eq(Value.cast(rhs)) in that "
+        "direction, singleton unwrapping only through one-field structures, shape comparison of the two assigned values dominates the statement, union branch "
+        "(singleton mapping, member test), assign_arg_fields table.",
+        "undecided": "equality of all selected fields after the statements for every nested layout (unfolding the recursion over layouts); Amaranth's own "
+        "eq semantics.",
+        "technique": T_PATH,
+    },
+    "C41": {
+        "level": "transpose: result layout nests inner keys outside (lambda nesting read from the syntax tree), the produced value iterates inner keys outside "
+        "and takes view[o][i], constant branch likewise, key order of the helper, mk_layout kinds, rejections, layout_keys; align_to/down_to_power_of_two, "
+        "bits_from_int, neg, int_to_signed, signed_to_int: returned python-integer expression evaluated for all arguments in a bounded range against the "
+        "documented function, and the two conversions are inverse for widths 1..6; make_hashable conversion table (mapping -> frozenset of pairs, iterable -> "
+        "tuple in order, hashable -> itself).",
+        "undecided": "arguments outside the bounds; hash/equality semantics of python objects (trusted).",
+        "technique": T_EVAL,
+    },
+    "C42": {
+        "level": "Complete transition relation of the manager's state (dependencies, cache, locked set): all 3 + 14 + 2 paths of add_dependency / "
+        "get_optional_dependency / get_dependency: locked add raises and changes nothing, otherwise appends once and drops a cached value; a read locks exactly "
+        "the lock_on_get keys on every path, absence test precedes cache and combine, cached value is the key's own entry, combine over all dependencies in "
+        "insertion order, cache filled exactly for caching keys; SimpleKey (0 -> default, 1 -> it, more -> error), ListKey identity, UnifierKey not cached; "
+        "class flag table.",
+        "undecided": "the induction over histories from the per-path obligations (paper step); user-defined key classes.",
+        "technique": T_PATH,
+    },
+    "C43": {
+        "level": "CallTrigger: one clock tick per trigger, every data-carrying call initialised before and disabled after it under the same test, sampled record "
+        "(outputs, done) per call in order then plain values, result = outputs if done else None from the right slice; call = until_done over one-tick "
+        "triggers, call_try = one trigger; enable/disable/set_enable; MethodMock: disabled first and re-enabled last each tick, pending effects run exactly "
+        "under done once each, list cleared and freeze reset before re-enable, outputs recomputed only when done and not frozen, inside the mock context with "
+        "effects dropped first and written to data_in without an intervening tick; effect registration.",
+        "undecided": "the simulator's scheduling semantics (which process observes what when).",
+        "technique": T_PATH,
+    },
 }
